@@ -664,21 +664,21 @@ theorem runText_err (fuel : Nat) (es : List Expr) (s s' : St) (v : String) (tr :
     exact Int.le_refl _
 
 /-- (C1 at the level of texts) **an error raised by a non-call instruction — at any depth of
-activations of the outermost loop, in code of the top-level text or of any function it called
-in that loop — leaves the interpreter served and at rest.** `hfault` says that every fault
-the run can have is at a non-call instruction (for instance: the text's error is raised by an
-unbound symbol, a failed `break`, a type error of an assignment…, not inside a builtin or a
-nested evaluation). -/
+activations of the outermost loop, in the code of the top-level text or of any function called
+in that loop — leaves the interpreter served and at rest**: the fault of `runText_err`, and if
+its instruction is not `callArr`/`callExpr` (an unbound symbol, a failed `break`, a type error
+of an assignment, a wrong-arity tail call …) the conclusion holds outright. -/
 theorem runText_err_simple_partial (fuel : Nat) (es : List Expr) (s s' : St) (v : String) (tr : List String) (d : String)
     (alive : Bool) (hs : Served s) (hok : okLs es = true)
-    (h : runText fuel es s = (Outcome.done "err" v tr d, s', alive))
-    (hfault : ∀ (s₀ s₁ : St) (i : Instr) (m : Nat), (fnOf s₀ s₀.curfunc).code[s₀.pc.toNat]? = some i →
-      (exec m i).run s₀ = (.error .err, s₁) → simple i = true) : Served s' := by
-  obtain ⟨b, s₀, top, rest, i, m, s₁, _, q1, q2, q3, q4, q5⟩ := runText_err fuel es s s' v tr d alive hs hok h
-  apply q5
+    (h : runText fuel es s = (Outcome.done "err" v tr d, s', alive)) :
+    ∃ b s₀ top rest i m s₁, b.main = true ∧ WF s₀ ∧ Running b s₀ top rest ∧
+      (fnOf s₀ s₀.curfunc).code[s₀.pc.toNat]? = some i ∧ (exec m i).run s₀ = (.error .err, s₁) ∧
+      (simple i = true → Served s') := by
+  obtain ⟨b, s₀, top, rest, i, m, s₁, q0, q1, q2, q3, q4, q5⟩ := runText_err fuel es s s' v tr d alive hs hok h
+  refine ⟨b, s₀, top, rest, i, m, s₁, q0, q1, q2, q3, q4, fun hsi => q5 ?_⟩
   cases m with
   | zero => simp only [VM.exec, run_throw] at q4; cases q4
-  | succ n => exact faultOK_simple q1 q2 q3 (hfault s₀ s₁ i (n + 1) q3 q4) n .err q4
+  | succ n => exact faultOK_simple q1 q2 q3 hsi n .err q4
 
 /-- what (C2) has to provide: a failing CALL instruction (`callArr`, `callExpr`) fetched by a
 `Running` loop leaves a `FaultOK` state — the nested evaluators restore on every error path -/
